@@ -186,6 +186,39 @@ def main(argv):
                     break
     c.sample({"stream": [[(ber.oid_text(o), kk) for o, kk in rp] for rp in streams[100][1]], "outcome": r[100]})
 
+    # ---- very long base OIDs (content of 127..513 octets, i.e. across every width a length could be kept in): containment and
+    # the end of the walk are judged against the WHOLE base
+    ll, lmeta = [], []
+    for L in (127, 128, 250, 255, 256, 257, 300, 511, 512, 513, 1000):
+        n5 = (L - 2) // 5
+        arcs = [1, 3] + [4294967295] * n5 + [1] * ((L - 2) - 5 * n5) + [5]
+        if len(ber.oid_content(arcs)) != L:
+            continue
+        in1, in2, sib = arcs + [1], arcs + [2], arcs[:-1] + [6]
+        for kind in ("next", "bulk"):
+            pd = [pdu_of([(in1, "i")]).hex(), pdu_of([(in2, "i")]).hex(), pdu_of([(sib, "i")]).hex(), pdu_of([(sib + [1], "i")]).hex()]
+            ll.append("walk %s %s %s %s" % (kind, gen.hx(ber.oid_text(arcs).encode()), "-" if kind == "next" else "10", " ".join(pd)))
+            want = ["RET (%s,int:7)" % text(in1), "RET (%s,int:7)" % text(in2), "EXC StopAsyncIteration"] if kind == "next" else \
+                ["RET [(%s,int:7)]" % text(in1), "RET [(%s,int:7)]" % text(in2), "RET [none]"]
+            lmeta.append((L, kind, want))
+    lm, lr, ld = cd.run(ll)
+    for ln, (L, kind, want), ml, rl, dl in zip(ll, lmeta, lm, lr, ld):
+        c.count(("long-base", L, kind), True)
+        for prof, o in (("release", rl), ("debug", dl)):
+            if not codec.same(ml, o, cd.emap):
+                dis += 1
+                if not any(b.startswith("correspondence") for b in c.broken):
+                    c.broken = list(c.broken) + ["correspondence (base OID of %d octets) `%s...`: model `%s` impl(%s) `%s`" % (L, ln[:60], ml[:150], prof, o[:150])]
+            steps = o.split(" | ")
+            for i, w in enumerate(want):
+                body = parse_step(steps[i])[0] if i < len(steps) else "(nothing)"
+                if body != w:
+                    c.violation("%s walk under a base OID of %d content octets, reply %d: the walk does `%s`, the property requires `%s` (%s build)"
+                                % (kind, L, i, body[:70], w[:70], prof), {"cmd": ln, "base_octets": L, "step": i, "observed": steps[i] if i < len(steps) else None,
+                                                                        "expected": w, "profile": prof},
+                                key="walk-long-base:" + ("leaves-subtree" if i == 2 else "items"))
+                    break
+
     # ---- API level: the Python iterators on top, scripted agent, request cap turns non-termination into an outcome
     scs, exps = [], []
     sample = rng.sample(streams[:n_exh_next], 60 if thorough else 25) + rng.sample(streams[n_exh_next:], 120 if thorough else 40)
